@@ -5,6 +5,8 @@ import (
 
 	"google.golang.org/grpc/codes"
 	"google.golang.org/grpc/status"
+
+	"github.com/smart-core-os/sc-golang/internal/verifhook"
 )
 
 // Router tracks a registry of gRPC clients.
@@ -101,11 +103,13 @@ func (r *router) Get(name string) (child any, err error) {
 	child, exists := r.registry[name]
 	r.mu.RUnlock()
 	if !exists {
+		verifhook.Yield("router.get.afterMiss")
 		child, exists, err = invoke(name, r.fallback)
 	}
 	if !exists {
 		child, exists, err = invoke(name, r.factory)
 		if exists {
+			verifhook.Yield("router.get.beforeInsert")
 			r.mu.Lock()
 			// check again
 			var newChildRemembered bool
